@@ -102,7 +102,7 @@ def build_real(n, lo, up, known, style: int, reuse_rng=None):
 def gen_vector(rng, n):
     size = 1 << n
     fam = rng.choice(["int", "dyadic", "float", "per_size", "unit", "degenerate", "crossed", "some_known", "negative",
-                      "narrow_big", "narrow_small", "one_narrow", "offset_box"])
+                      "narrow_big", "narrow_small", "one_narrow", "offset_box", "minor_player", "minor_player"])
     known = [False] * size
     known[0] = known[size - 1] = True
     if fam == "int":
@@ -134,6 +134,19 @@ def gen_vector(rng, n):
         base = rng.choice([1e6, -1e7])
         lo = [base + rng.uniform(0, 3) for _ in range(size)]
         up = [l + rng.random() * rng.choice([0, 1, 2]) for l in lo]
+        if rng.random() < 0.6:
+            for i in range(n):          # players worth (about) nothing alone who add a little to huge coalitions
+                lo[1 << i] = up[1 << i] = 0.0
+    elif fam == "minor_player":    # one player worth nothing alone who adds a few units to coalitions worth ~1e6
+        i = rng.randrange(n)
+        scale_ = rng.choice([1e6, 1e7, 1e3])
+        w = {}
+        for t in range(size):
+            if not t >> i & 1:
+                w[t] = 0.0 if t == 0 else scale_ * rng.randint(1, 9) + rng.uniform(0, 3)
+        lo = [w[s & ~(1 << i)] + (rng.uniform(0, 3) if (s >> i & 1 and s != 1 << i) else 0.0) for s in range(size)]
+        up = [l + rng.random() * rng.choice([0, 1, 2]) for l in lo]
+        lo[1 << i] = up[1 << i] = 0.0
     elif fam == "per_size":
         w = [rng.randint(0, 4) for _ in range(n + 1)]
         lo = [float(rng.randint(-2, 2)) for _ in range(size)]
